@@ -29,6 +29,7 @@ class Site:
     #                        | static | function | serialize | deserialize
     nargs: Optional[int] = None   # arity tested by the guard
     isa: List[Tuple[int, str]] = field(default_factory=list)  # (position, matlab type)
+    shape: Dict[int, Dict[int, int]] = field(default_factory=dict)  # position -> {dim: size}
     nout: int = 0
 
 
@@ -142,6 +143,9 @@ def _classify(site: Site, mf: MFile):
     if m:
         site.nargs = int(m.group(1))
     site.isa = [(int(i), t) for i, t in re.findall(r"isa\(varargin\{(\d+)\},\s*'([^']*)'\)", g)]
+    site.shape = {}
+    for i, d, n in re.findall(r"size\(varargin\{(\d+)\},\s*(\d)\)\s*==\s*(\d+)", g):
+        site.shape.setdefault(int(i), {})[int(d)] = int(n)
     lhs = site.lhs
     if lhs.startswith('[') and 'varargout' in lhs:
         site.nout = len(re.findall(r'varargout\{\d+\}', lhs))
